@@ -156,10 +156,37 @@ def r10_3(ctx, R, ms):
                 ctx.ob("R10.3", b, "returned-error-is-the-upstream-residual", ok, b.loc(rb), expr_str(src))
             elif _explicit_err(e) is not None:
                 src = _explicit_err(e)
-                ok = src[0] == "proj" and src[2][-2:] == ("@Err", ".0") and src[1][0] == "call" and src[1][3] in m.up_sites
+                ok = _err_src_ok(m, src)
+                if not ok:
+                    # the error travels through an inlined helper's Result (a join): decide on every path returning here
+                    from lib_flow import PathEval
+                    vs = []
+                    for path, ev in paths:
+                        if path[-1] != rb and rb not in path:
+                            continue
+                        if not simulate(ev)[0]:
+                            continue
+                        pe = _explicit_err(PathEval(b, path).local_expr(0))
+                        if pe is not None:
+                            vs.append(pe)
+                    if vs and all(_err_src_ok(m, v) for v in vs):
+                        ok, src = True, vs[0]
                 ctx.ob("R10.3", b, "returned-error-is-the-upstream-residual", ok, b.loc(rb), expr_str(src))
         # inner outputs (Result) are forwarded unchanged: covered by RET(Forward)/RET(Some) provenance in R10.4
     ctx.floor("R10.3", "try-adapters", n, 2)
+
+
+def _err_src_ok(m, src):
+    """`src` is the upstream poll's own error: its Some(Err(e)) payload, or the payload of the Result an `?` on that poll
+    produced (`from_residual(branch(poll)@Break.0)@Err.0`)."""
+    if src[0] == "proj" and src[2][-2:] == ("@Err", ".0") and src[1][0] == "call":
+        c = src[1]
+        if c[3] in m.up_sites:
+            return True
+        if "FromResidual" in (c[1] or "") and re.search(r"Result<", c[1] or ""):
+            x = c[2][0]
+            return x[0] == "proj" and x[2][:2] == ("@Break", ".0") and x[1][0] == "call" and x[1][3] in m.branches
+    return False
 
 
 def _explicit_err(e):
@@ -196,8 +223,8 @@ def r10_4(ctx, R, ms):
         for rb, e in returned_exprs(ctx, b):
             if e[0] == "agg" and e[1].endswith("Poll::Ready") and e[2][0][0] == "agg" and e[2][0][1].endswith("Option::Some"):
                 v = e[2][0][2][0]
-                if _explicit_err(e) is not None and any(c[3] in m.up_sites for c in expr_calls(v)):
-                    continue    # an upstream error surfaced by an explicit arm: R10.3
+                if _explicit_err(e) is not None:
+                    continue    # an error surfaced by an explicit arm: R10.3 decides where it may come from
                 ok = any(c[3] in m.inner for c in expr_calls(v)) and v[0] == "proj"
                 ctx.ob("R10.4", b, "yielded-value-is-inner-output", ok, b.loc(rb), expr_str(v))
 
@@ -304,4 +331,12 @@ def run(ctx):
         ctx.rule("R9.1", "see C09 R9.1 (shared): every adapter constructor builds its queue by the bounded `new` applied to its own limit parameter")
         c09.r9_4(ctx, R, res["INSERT"][0], res["INSERT"][1])
         r10_6(ctx, R, ms, res["INSERT"][0])
+        # the path model reads a refusing fill guard as "the queue is saturated" (so "Pending, upstream present and not polled,
+        # nothing in flight" is infeasible): that reading is C09 R9.2's refusal direction, re-established here
+        before = len(ctx.obs)
+        c09.r9_2(ctx, R, ms, res["INSERT"][0])
+        keep = ("guard-refuses-only-when-saturated", "has-fill-guard", "guard-operands")
+        ctx.obs = ctx.obs[:before] + [o for o in ctx.obs[before:] if o.label.startswith(keep)]
+        ctx.rule("R9.2", "see C09 R9.2 (shared, refusal direction): the fill guard refuses a pull only when the queue is saturated -- "
+                         "a guard that refuses while nothing is in flight never polls upstream and parks the task with nothing registered")
         ctx.rule("R9.4", "see C09 R9.4 (shared): the limit reaches the slot storage unchanged")
